@@ -509,7 +509,7 @@ func (c19) Decode(raw json.RawMessage) (any, error) {
 func (c19) Gen(rt *rapid.T, thorough bool) any {
 	s := genRollBase(rt, thorough, 4)
 	if rapid.IntRange(0, 5).Draw(rt, "static") == 0 {
-		s.Static = rapid.SampledFrom([]string{"file-closed", "file-unstarted", "console-fails", "console-fails-zero", "rolling-unstarted"}).Draw(rt, "static_kind")
+		s.Static = rapid.SampledFrom([]string{"file-closed", "file-unstarted", "console-fails", "console-fails-zero", "rolling-unstarted", "via-refresh", "via-refresh"}).Draw(rt, "static_kind")
 		return s
 	}
 	for len(s.Clock) < 3 {
@@ -823,8 +823,82 @@ func (c19) Run(x *Exec, scn any) {
 
 // runStaticFailing drives a synchronous logger whose target is closed, was
 // never opened, or fails every write: the log call must return normally.
+// runViaRefresh: the rolling appender as a configuration uses it - behind the root logger, which
+// also serves the library's own tags - through an outage that spans a boundary.
+func runViaRefresh(x *Exec, s *RollScn) {
+	o := x.Out
+	cfg := (&SysSpec{Style: Style{}, Props: map[string]string{"enableCaller": "false"},
+		Apps: []AppSpec{{Name: "roll", Type: "RollingFile", FileDir: rollDir, FileName: rollName, Rotation: "1s", MaxAge: 100000}},
+		Logs: []LogSpec{{Name: "root", Type: "Logger", Refs: []RefSpec{{Ref: "roll"}}}}}).Render()
+	var err error
+	if !x.do("refresh", func() { call(func() { err = log.Refresh(cfg) }) }) || err != nil {
+		panic(fmt.Sprintf("harness: Refresh of a root logger over a rolling appender failed: %v", err))
+	}
+	kind := []string{"rename", "emfile", "eacces"}[int(s.Knobs.MapSeed)%3]
+	var subs []*Submitted
+	logOne := func(i int) bool {
+		return x.do(fmt.Sprintf("client-%d", i), func() {
+			subs = append(subs, emit(0, i, log.TagAppDef, "_app_def", EvOp{Kind: i % 5, Size: 5}, log.InfoLevel))
+		})
+	}
+	step := func() { x.Sim.Advance(verifsim.Now().Truncate(time.Second).Add(time.Second).Sub(verifsim.Now()) + time.Millisecond) }
+	ok := logOne(0)
+	if kind == "rename" {
+		x.FS.Rename(rollDir, rollDir+".away")
+	} else {
+		x.FS.AddFault(&simos.FaultRule{Op: "open", Prefix: rollDir, Err: map[string]syscall.Errno{"emfile": syscall.EMFILE, "eacces": syscall.EACCES}[kind], Count: -1})
+	}
+	for i := 1; i <= 3 && ok; i++ {
+		step()
+		ok = logOne(i) && logOne(10+i)
+	}
+	if kind == "rename" {
+		x.FS.Rename(rollDir+".away", rollDir)
+	} else {
+		x.FS.ClearFaults()
+	}
+	if ok {
+		step()
+		ok = logOne(4)
+	}
+	if !ok {
+		o.violate("blocked", "C19/write-blocked", "a log call through the root logger over a rolling appender did not return during/after a creation outage (%s): %v", kind, x.clientsStuck())
+		return
+	}
+	if !x.do("destroy", func() { call(log.Destroy) }) {
+		o.violate("blocked", "C19/write-blocked", "Destroy did not return after a creation outage: %v", x.clientsStuck())
+		return
+	}
+	for _, t := range x.Sim.Died() {
+		if t.Daemon {
+			o.violate("library-goroutine-panic", "C19/library-goroutine-panic", "library goroutine %s panicked: %v", t.Name, t.Panic)
+		}
+	}
+	x.Sim.Close()
+	present := map[string]bool{}
+	for p, d := range x.FS.AllFiles() {
+		if strings.HasPrefix(p, rollDir+"/"+rollName+".") {
+			for _, m := range idInLine.FindAllSubmatch(d, -1) {
+				present[string(m[1])] = true
+			}
+		}
+	}
+	for _, sb := range subs {
+		if sb.Panic != nil {
+			o.violate("panic-on-failing-target", "C19/panic-on-failing-target/via-refresh/"+sb.PanicAt, "log call %s panicked during a creation outage: %v", sb.ID, sb.Panic)
+		} else if !present[sb.ID] {
+			o.violate("lost-write", "C19/lost-write/via-refresh", "event %s, logged through the root logger during/after a creation outage (%s), is in none of the appender's files", sb.ID, kind)
+		}
+	}
+	o.Reached = true
+}
+
 func runStaticFailing(x *Exec, s *RollScn) {
 	o := x.Out
+	if s.Static == "via-refresh" {
+		runViaRefresh(x, s)
+		return
+	}
 	lay := &log.TextLayout{BaseLayout: log.BaseLayout{FileLineLength: 48}}
 	full := log.LevelRange{MinLevel: log.NoneLevel, MaxLevel: log.MaxLevel}
 	var l log.Logger
